@@ -89,9 +89,10 @@ static void emit(int s, int k, int n, const Obs *o, int sig, int status) {
           SN[s], FN[s], k, n, sig, status, o->inj, o->ok, o->err, o->code, o->msg, o->same, o->has, o->after, o->bi, o->d, o->files);
 }
 int cmd_c04f(int argc, char **argv) {
-  (void)argc; (void)argv; if (getenv("XRL_SCRATCH_DIR")) scratchdir = getenv("XRL_SCRATCH_DIR");
+  int only_crystal = argc > 0 && !strcmp(argv[0], "crystal"); if (getenv("XRL_SCRATCH_DIR")) scratchdir = getenv("XRL_SCRATCH_DIR");
   static char iobuf[1 << 16]; setvbuf(OUT, iobuf, _IOFBF, sizeof iobuf);
   for (int s = 0; s < NSCEN; s++) {
+    if (only_crystal && strncmp(FN[s], "Crystal_", 8)) continue;
     int n = -1;
     for (int k = 0; n < 0 || k <= n; k++) {
       fflush(OUT); int pfd[2]; if (pipe(pfd)) return 3;
